@@ -107,3 +107,28 @@ class C13y_seed_other(Contract):
 
     def raises(self, test):
         return {}
+
+
+class C13y_visit_assert(Contract):
+    """only an UNCONDITIONAL assert (`_cond_depth == 0`) seeds size equalities; one inside an `if` / loop body records
+    nothing.  BOUNDED STAND-IN in the test shape: a comparison chain of 2 links."""
+    target = 'fpy2.analysis.array_size:_ArraySizeInferInstance._visit_assert'
+    params = {'self': 'AssertProbe', 'stmt': 'AssertStmt', 'ctx': 'None'}
+    overrides = {'stmt.test': 'Compare'}
+    returns = 'None'
+    properties = ['C13']
+    inline = True
+    modifies = ['self.log']
+    options = {'seq_len': {'self.log': 0, 'stmt.test.ops': 2, 'stmt.test.args': 3}, 'bounded': 8, 'bounded_refute': True}
+    note = 'bounded stand-in: the asserted test is a comparison chain of 2 links'
+
+    def pre(self, stmt, ctx):
+        return {'depth': self._cond_depth >= 0}
+
+    def post(self, stmt, ctx, result):
+        if self._cond_depth == 0:
+            return log_is(self.log, chain_links(stmt.test.ops, stmt.test.args))
+        return {'conditional_assert_seeds_nothing': len(self.log) == 0}
+
+    def raises(self, stmt, ctx):
+        return {}
